@@ -22,13 +22,20 @@ ASPECT = "C07"
 
 def shards(tier):
     if tier == "quick":
-        return [{"label": "hist%d" % i, "n": 2200} for i in range(14)]
-    return [{"label": "hist%d" % i, "n": 60000} for i in range(16)]
+        return [{"label": "hist%d" % i, "n": 2200} for i in range(14)] + [{"label": "giant", "n": 60, "giant": True}]
+    return [{"label": "hist%d" % i, "n": 60000} for i in range(16)] + [{"label": "giant", "n": 1500, "giant": True}]
 
 
 def run_shard(ctx):
+    if ctx.shard.get("giant"):
+        for case in histories.giant_append_cases(ctx.rng, ctx.shard["n"]):
+            histories.giant_append(ctx, ASPECT, case)
+        return
     histories.run_histories(ctx, ASPECT, ctx.shard["n"])
 
 
 def replay(ctx, case):
+    if case.get("kind") == "giant_append":
+        histories.giant_append(ctx, ASPECT, case)
+        return
     histories.replay(ctx, ASPECT, case)
